@@ -401,7 +401,12 @@ func cmdBuild(args []string) {
 		if depth == 0 {
 			return
 		}
-		for _, op := range applicable(fields) {
+		// the argument forms of Pick / Omit are enumerated for the first two operations of a sequence only
+		save := argVariants
+		argVariants = save && len(ops) < 2
+		cand := applicable(fields)
+		argVariants = save
+		for _, op := range cand {
 			rec(ntests, keys, applyFields(fields, op), append(ops, op), depth-1)
 		}
 	}
